@@ -51,6 +51,15 @@ def shard(shard_no, nshards, seed, tier, extra):
     B = evm.boundary_constants() + sorted(table)[:6]
     n = 330 if tier == "quick" else 18000
     d = common.Driver("rel", shim=False)
+    contracts = common.corpus_codes(4000 if tier == "quick" else None)
+    for ci, (name, code) in enumerate(contracts):
+        if ci % nshards != shard_no:
+            continue
+        cfg = {"permissive": True}
+        resp = d.call({"op": "analyze", "code": code.hex(), "stage": "staged", "observe": ["storage_keys"],
+                       "cfg": cfg, "wd": {"every": 100, "stop_at": 200000}}, timeout=600)
+        judge(res, code, {}, cfg, resp, table)
+        res.count("real_contracts")
     for i in range(n):
         cfg = {"permissive": True}
         if rng.random() < 0.3:
